@@ -414,6 +414,12 @@ func runCase(c driver.Case) driver.Result {
 		last := -1
 		total := 0
 		timed := int64(0)
+		termBegin := int64(0)
+		for _, em := range s.Emissions() {
+			if em.N.K != rec.Next {
+				termBegin = em.TBegin
+			}
+		}
 		for i, e := range ev {
 			if e.Kind != rec.Next {
 				continue
@@ -435,7 +441,10 @@ func runCase(c driver.Case) driver.Result {
 			countTriggered := op == "buffertimeorcount" && len(vals) == size
 			// (only for BufferWithTime: with a count trigger a size-triggered flush racing a tick can emit a
 			// partial buffer, so "shorter than size" does not identify the tick-triggered ones)
-			if !isFinal && !countTriggered && op == "buffertime" {
+			// … and a buffer delivered after the source's terminal call began may be the flush of that
+			// terminal overtaking a tick's flush (the recorded unlock-then-emit defect delivers them in
+			// either order): only buffers delivered before the terminal call are certainly tick-triggered
+			if !isFinal && !countTriggered && op == "buffertime" && (termBegin == 0 || e.T < termBegin) {
 				if e.T-ts < (timed+1)*int64(d) {
 					return fail("time-buffer-emitted-early", fmt.Sprintf("time-triggered buffer #%d delivered %s after subscription, before %d period(s) of %v", timed, ms(e.T-ts), timed+1, d))
 				}
@@ -499,10 +508,20 @@ func runCase(c driver.Case) driver.Result {
 			sub.Unsubscribe()
 		}
 		tu := rec.Tick()
-		time.Sleep(4 * d)
-		c1 := r.Len()
-		time.Sleep(4*d + 2*time.Millisecond)
-		c2 := r.Len()
+		// "falls silent": two consecutive observation windows of 4 periods without any notification.
+		// How soon that happens is not asserted (a loaded machine may run the operator's goroutine
+		// late); an operator that was not stopped keeps ticking and never shows two silent windows.
+		silent, windows := 0, 0
+		prev := r.Len()
+		for silent < 2 && windows < 400 {
+			time.Sleep(4*d + 2*time.Millisecond)
+			windows++
+			if n := r.Len(); n == prev {
+				silent++
+			} else {
+				silent, prev = 0, n
+			}
+		}
 		close(stopFeed)
 		<-fed
 		quiesce.Settle(time.Second)
@@ -522,8 +541,8 @@ func runCase(c driver.Case) driver.Result {
 		if !byCancel && late > 1 {
 			return fail("not-silent-after-stop", fmt.Sprintf("%s delivered %d values after %s returned", name, late, how))
 		}
-		if c2 != c1 {
-			return fail("not-silent-after-stop", fmt.Sprintf("%s still delivering %d periods after %s (%d notifications in the second observation window)", name, 4, how, c2-c1))
+		if silent < 2 {
+			return fail("not-silent-after-stop", fmt.Sprintf("%s is still delivering after %s: %d observation windows of 4 periods each, never two consecutive ones without a notification (%d values since)", name, how, windows, late))
 		}
 		res.Events = int64(r.Len()) + 1
 		res.Sig = name
